@@ -35,7 +35,7 @@ def REQUIRED(tier):
 
 def _required(tier):
     return ["azimuth:outside_0_360", "angles:non_degree_unit", "edit:strings_containing_keywords", "object:after_product_at_other_depth", "bytes_roundtrips", "object_roundtrips", "edits_applied", "edits_refused_file_identical", "sky:dec_in_(-1,0)", "sky:carry_59.99",
-            "frame:pulsarcentric", "frame:barycentric", "frame:topocentric", "edit:absent_key", "edit:unknown_key", "edit:wrong_type", "edit:out_of_range", "derived:from_int_typed_template", "derived:update_to_zero"]
+            "frame:pulsarcentric", "frame:barycentric", "frame:topocentric", "edit:absent_key", "edit:unknown_key", "edit:wrong_type", "edit:out_of_range", "derived:from_int_typed_template", "derived:update_to_zero", "derived:telescope_not_in_id_table"]
 
 
 def cases(tier, seed):
@@ -93,6 +93,9 @@ def _derived(case, ctx):
         ints = bool(j % 2 == 0)
         base = dict(filename="x.fil", data_type="filterbank", nchans=16, nbits=8, tsamp=0.001, nsamples=64)
         base.update(dict(tstart=58000, fch1=1500, foff=-1) if ints else dict(tstart=58000.0, fch1=1500.0, foff=-1.0))
+        if j % 4 == 3:        # an observatory the SIGPROC id table does not know: the file is still a header a reader can parse
+            base["telescope"] = ["FAST", "ASKAP", "uGMRT", "PARKES"][j // 4 % 4]
+            ctx.count("derived:telescope_not_in_id_table")
         zero_upd = j % 8 == 5
         if zero_upd:       # the DM-0 version of data whose template carries a reference DM: a zero is a value like any other
             base["dm"] = 56.75
@@ -353,6 +356,9 @@ def _edit(case, ctx):
         if err is not None:
             if after != before:
                 ctx.violation(f"edit-raised-but-file-changed:{lab}", f"edit_header({k!r},{v!r}) raised {fmt_exc(err)} but the file changed", one)
+            elif cls.startswith("valid") and not absent and k in sigfile.KEY_TYPES:
+                # a well-typed, in-range, same-length value for a key the file holds is an edit that must be applied (whatever was refused before it)
+                ctx.violation(f"valid-edit-refused:{k}:{type(err).__name__}@{exc_site(err)}", f"edit_header({k!r},{v!r}) raised {fmt_exc(err)}", one)
             else:
                 ctx.count("edits_refused_file_identical")
             ctx.nontrivial_case(one)
